@@ -109,3 +109,27 @@ func ZZ_C11_fuzz_messages() {
 		zzvt.Assert(back.Error != nil && back.Error.Error == m.Error.Error, "error-equal")
 	}
 }
+
+// ZZ_C14_fuzz_messages_raw: ErrorMessage.UnmarshalBinary (it parses a compact length itself) on
+// an arbitrary compact length of 1, 2, 3 or 9 bytes followed by 0..2 text bytes: no Go panic,
+// bounded allocation. The text bytes are concrete (they are turned into a Go string).
+//zz:workers=8 paths=60000 conccap=300
+func ZZ_C14_fuzz_messages_raw() {
+	n := [4]int{1, 2, 3, 9}[zzvt.Range("lengthBytes", 0, 3)]
+	data := zzvt.Bytes("length", n)
+	switch n {
+	case 1:
+		zzvt.Assume(data[0] < 0x80)
+	case 2:
+		zzvt.Assume(zzvt.And(data[0] >= 0x80, data[0] < 0xc0))
+	case 3:
+		zzvt.Assume(zzvt.And(data[0] >= 0xc0, data[0] < 0xe0))
+	case 9:
+		zzvt.Assume(data[0] == 0xff)
+	}
+	data = append(data, []byte("ab")[:zzvt.Range("text", 0, 2)]...)
+	zzSafely(64*len(data)+65536, func() {
+		var m ErrorMessage
+		_ = m.UnmarshalBinary(data)
+	})
+}
